@@ -280,6 +280,11 @@ pub fn run(ctx: &Ctx) -> (Stats, Report) {
             || (strat::raw(kind), proptest::collection::vec(any::<u32>(), NCHOICES), prop_oneof![3 => Just(0u32), 2 => 1u32..=speller::PERTURBS.len() as u32]),
             |(raw, choices, neg): &(i128, Vec<u32>, u32), st: &mut Stats| {
                 let b = speller::build(kind, *raw, choices, *neg);
+                if tokenize(&b.picture).is_none() {
+                    // a picture the reference rejects is a generator bug, never a library violation
+                    st.class("generator-produced-invalid-picture-skipped");
+                    return Ok(());
+                }
                 st.evaluations += 1;
                 judge_built(&b)?;
                 for t in &b.tags {
